@@ -90,7 +90,7 @@ def collect_mutants():
         for name in sorted(os.listdir(base)):
             if name.endswith(".diff"):
                 prop = name.split("-")[0]
-                out.append((name[:-5], prop, os.path.join(base, name)))
+                out.append((name[:-5], prop, os.path.join(base, name), None))
     base = os.path.join(runner.VERIF, "seeded")
     if os.path.isdir(base):
         for name in sorted(os.listdir(base)):
@@ -99,7 +99,7 @@ def collect_mutants():
             if os.path.exists(meta) and os.path.exists(patch):
                 with open(meta) as f:
                     m = json.load(f)
-                out.append(("seeded/" + name, m["property"], patch))
+                out.append(("seeded/" + name, m["property"], patch, m.get("check_args")))
     return out
 
 
@@ -109,7 +109,7 @@ def sensitivity(argv, seed):
     only = _props(argv, [])
     runs = argv[argv.index("--runs") + 1] if "--runs" in argv else None
     results, missed = [], 0
-    for name, prop, patch in collect_mutants():
+    for name, prop, patch, check_args in collect_mutants():
         if only and not any(o in name or o == prop for o in only):
             continue
         scratch = _scratch_copy()
@@ -125,7 +125,8 @@ def sensitivity(argv, seed):
                 missed += 1
                 continue
             env = dict(os.environ, DSW_VERIF_REPO=scratch, VERIF_SEED=str(seed))
-            cmd = [os.path.join(runner.VERIF, "check"), prop, "quick", "--no-evidence"] + (["--runs", runs] if runs else [])
+            cmd = [os.path.join(runner.VERIF, "check"), prop] + (check_args or ["quick"]) + ["--no-evidence"] + \
+                (["--runs", runs] if runs and not check_args else [])
             q = subprocess.run(cmd, env=env, stdout=subprocess.PIPE, stderr=subprocess.PIPE, cwd=runner.VERIF)
             text = q.stdout.decode()
             caught = q.returncode == 1 and "VIOLATION property=%s" % prop in text
@@ -135,7 +136,8 @@ def sensitivity(argv, seed):
             if not caught:
                 missed += 1
                 sys.stdout.write(q.stderr.decode()[-600:])
-            results.append({"mutant": name, "property": prop, "caught": caught, "first": line[0] if line else None})
+            results.append({"mutant": name, "property": prop, "caught": caught, "first": line[0] if line else None,
+                            "tier": (check_args or ["quick"])[0]})
             # replay files produced against the scratch copy are not evidence about /repo
             for ln in text.splitlines():
                 if ln.startswith("VIOLATION") and "replay=" in ln:
